@@ -145,6 +145,14 @@ def _ord_in(o, text):
     return False
 
 
+def _ord1(ch):
+    """code point of a length-1 text, by iteration: CrossHair's ord() cannot index a one-character
+    slice whose bounds are symbolic ints (e.g. a slice of a strip()ped text taken in a range() loop)"""
+    for c in ch:
+        return ord(c)
+    raise TypeError("ord() expected a character")
+
+
 def _char_in(ch, text):
     if len(text) > 3 and _is_conc(text) and not _is_conc(ch):
         return _ord_in(ord(ch), text)
@@ -185,6 +193,15 @@ def pw_map(x, pieces, otherwise=(1, 0)):
 def _len_conc(s):
     """True when len(s) is a plain int (the text may still have symbolic characters)"""
     return _is_conc(len(s))
+
+
+# opt-in (set by a props module): find / strip on a text with symbolic characters but a concrete
+# length scan with concrete indices instead of calling the str method, whose result is symbolic
+FAST_SCAN = False
+
+
+def _scannable(s):
+    return (not _is_conc(s)) and _len_conc(s) and len(s) <= 256
 
 
 def _is_byteslike(x):
@@ -256,7 +273,7 @@ class _LBase:
             return chr(x) in self.s
         xs = _s(x)
         if len(self.s) > 3 and _is_conc(self.s) and not _is_conc(xs) and len(xs) == 1:
-            return _ord_in(ord(xs), self.s)
+            return _ord_in(_ord1(xs), self.s)
         return xs in self.s
 
     def __mod__(self, args):
@@ -273,7 +290,20 @@ class _LBase:
 
     # -- searching / splitting ------------------------------------------------------------
     def find(self, sub, *a):
-        return self.s.find(chr(sub) if isinstance(sub, int) else _s(sub), *a)
+        sub = chr(sub) if isinstance(sub, int) else _s(sub)
+        if FAST_SCAN and len(a) <= 1 and _scannable(self.s) and _is_conc(sub) and len(sub) == 1 and \
+                (not a or _is_conc(a[0])):
+            # left-to-right scan with concrete indices: the result is a plain int on every path (a
+            # symbolic result would make every later slice a symbolic-bounds slice)
+            start = a[0] if a else 0
+            n = len(self.s)
+            if start < 0:
+                start = max(0, n + start)
+            for k in range(start, n):
+                if self.s[k] == sub:
+                    return k
+            return -1
+        return self.s.find(sub, *a)
 
     def rfind(self, sub, *a):
         return self.s.rfind(chr(sub) if isinstance(sub, int) else _s(sub), *a)
@@ -346,14 +376,28 @@ class _LBase:
             return self._new("".join([chr(pw_map(ord(c), [(oa, oa, 0, ob)])) for c in self.s]))
         return self._new(self.s.replace(a, b, *n))
 
+    def _strip(self, chars, left, right):
+        chars = _WS if chars is None else _s(chars)
+        if FAST_SCAN and _scannable(self.s) and _is_conc(chars):
+            # scan from the ends with concrete indices (see find)
+            a, z = 0, len(self.s)
+            while left and a < z and _char_in(self.s[a], chars):
+                a += 1
+            while right and z > a and _char_in(self.s[z - 1], chars):
+                z -= 1
+            return self._new(self.s[a:z])
+        if left and right:
+            return self._new(self.s.strip(chars))
+        return self._new(self.s.lstrip(chars) if left else self.s.rstrip(chars))
+
     def strip(self, chars=None):
-        return self._new(self.s.strip(_WS if chars is None else _s(chars)))
+        return self._strip(chars, True, True)
 
     def lstrip(self, chars=None):
-        return self._new(self.s.lstrip(_WS if chars is None else _s(chars)))
+        return self._strip(chars, True, False)
 
     def rstrip(self, chars=None):
-        return self._new(self.s.rstrip(_WS if chars is None else _s(chars)))
+        return self._strip(chars, False, True)
 
     def join(self, parts):
         return LBytes(self.s.join([_s(p) for p in parts]))
@@ -1360,6 +1404,20 @@ def l_shr(a, n):
 # ---- differential self-test against the real types (run on every lifted check) ---------------
 
 def selftest():
+    """differential self-test, run once as configured and once with the opt-in FAST_SCAN code paths
+    forced on (they are only taken for symbolic text otherwise)"""
+    global FAST_SCAN, _scannable
+    n = _selftest_once()
+    saved = (FAST_SCAN, _scannable)
+    FAST_SCAN, _scannable = True, (lambda s: True)
+    try:
+        n += _selftest_once()
+    finally:
+        FAST_SCAN, _scannable = saved
+    return n
+
+
+def _selftest_once():
     """LBytes/LBuf/shims vs real bytes/bytearray/struct/int on a hostile corpus; returns #cases,
     raises AssertionError on any disagreement."""
     n = 0
@@ -1385,7 +1443,8 @@ def selftest():
                            ("find", (b"\n",)), ("rfind", (b"a",)), ("startswith", (b"a",)), ("endswith", (b"\n",)),
                            ("partition", (b":",)), ("rpartition", (b":",)), ("replace", (b"\r\n", b"\n")),
                            ("count", (b"a",)), ("hex", ()), ("isupper", ()), ("islower", ()),
-                           ("rsplit", (b",", 1)), ("translate", (None, b"\r\n"))]:
+                           ("rsplit", (b",", 1)), ("translate", (None, b"\r\n")), ("find", (b"a", 1)),
+                           ("find", (b"\n", -1)), ("strip", (b"a\n",)), ("lstrip", (b" a",)), ("rstrip", (b"\r\n",))]:
             largs = tuple(LBytes(a) if isinstance(a, bytes) else a for a in args)
             try:
                 want = T(getattr(c, name)(*args))
